@@ -1,6 +1,7 @@
 package sym
 
 import (
+	"fmt"
 	"verif/engine/term"
 )
 
@@ -125,13 +126,25 @@ func readFlat(cells []*term.T, idx *term.T) *term.T {
 	if len(cells) == 0 || lo > hi {
 		return zero8
 	}
-	if hi-lo > 4096 {
-		panic(pathEnd{kind: endUnsupported, msg: "symbolic index into large flat byte array"})
+	// default value = the most frequent cell (typically the zero fill); only exceptions get an ite
+	def := cells[hi]
+	if cells[lo] == zero8 || cells[(lo+hi)/2] == zero8 {
+		def = zero8
 	}
-	// all same?
-	r := cells[hi]
-	for i := int(hi) - 1; i >= int(lo); i-- {
-		r = term.Ite(term.Eq(idx, u64(uint64(i))), cells[i], r)
+	nexc := 0
+	for i := lo; i <= hi; i++ {
+		if cells[i] != def {
+			nexc++
+		}
+	}
+	if nexc > 4096 {
+		panic(pathEnd{kind: endUnsupported, msg: fmt.Sprintf("symbolic index into large flat byte array (%d cells, index range %d..%d)", len(cells), lo, hi)})
+	}
+	r := def
+	for i := int(hi); i >= int(lo); i-- {
+		if cells[i] != def {
+			r = term.Ite(term.Eq(idx, u64(uint64(i))), cells[i], r)
+		}
 	}
 	return r
 }
@@ -225,7 +238,7 @@ func copyBytes(dst *ByteArr, dOff *term.T, src *ByteArr, sOff *term.T, n *term.T
 		copy(dst.cells[dOff.C:], tmp)
 		return
 	}
-	if dst.cells != nil && dOff.IsConst() && sOff.IsConst() && n.IsConst() && n.C <= 4096 {
+	if dst.cells != nil && dOff.IsConst() && sOff.IsConst() && n.IsConst() && n.C <= 128 {
 		// flat destination, layered source, concrete extents: read cell by cell
 		tmp := make([]*term.T, n.C)
 		for i := uint64(0); i < n.C; i++ {
